@@ -357,7 +357,8 @@ func (e *Env) handlerOps(i int, tn string, stream grpc.ServerStream, ops []strin
 			}
 			e.where("")
 		case op[0] == 's':
-			seq, _ := strconv.Atoi(op[1:])
+			must := strings.HasPrefix(op, "s!") // as generated code does: a failed send ends the handler with that error
+			seq, _ := strconv.Atoi(strings.TrimPrefix(op[1:], "!"))
 			rr.SrvSendAttempt = append(rr.SrvSendAttempt, tag(i, "s", seq))
 			resp := newMsg(i, "s", seq)
 			own := e.own(resp, tag(i, "s", seq), "handler SendMsg")
@@ -371,6 +372,9 @@ func (e *Env) handlerOps(i int, tn string, stream grpc.ServerStream, ops []strin
 				e.monitorBackpressure(i, "srv")
 			}
 			e.rec.ev(tn, op, es(err))
+			if must && err != nil {
+				return err
+			}
 		case strings.HasPrefix(op, "h:"):
 			err := stream.SetHeader(hdrMD(op[2:]))
 			e.nlock()
@@ -695,14 +699,31 @@ func (e *Env) monitorPrefix(i int, side string) {
 	}
 	rr := e.rec.RPCs[i]
 	if side == "cli" {
-		if !isPrefix(rr.CliRecv, rr.SrvSendAttempt) {
+		if !prefixModuloFailed(rr.CliRecv, rr.SrvSendAttempt, rr.SrvSendRes) {
 			rr.Monitor = append(rr.Monitor, fmt.Sprintf("prefix:client received %v but handler sent %v", rr.CliRecv, rr.SrvSendAttempt))
 		}
 	} else {
-		if !isPrefix(rr.SrvRecv, rr.SendAttempt) {
+		if !prefixModuloFailed(rr.SrvRecv, rr.SendAttempt, rr.SendRes) {
 			rr.Monitor = append(rr.Monitor, fmt.Sprintf("prefix:handler received %v but client sent %v", rr.SrvRecv, rr.SendAttempt))
 		}
 	}
+}
+
+// prefixModuloFailed: recv is a prefix of what the peer sent, where a send the
+// peer was told had failed (its SendMsg returned an error, e.g. because the
+// context had ended) may or may not have gone out.
+func prefixModuloFailed(recv, attempts, results []string) bool {
+	k := 0
+	for _, got := range recv {
+		for k < len(attempts) && attempts[k] != got && k < len(results) && results[k] != "nil" {
+			k++ // a failed send that did not go out
+		}
+		if k >= len(attempts) || attempts[k] != got {
+			return false
+		}
+		k++
+	}
+	return true
 }
 
 // monitorBackpressure checks, when a send completes, that the sender is not
@@ -791,6 +812,9 @@ func (e *Env) body() {
 			e.rec.Cancelled = true
 			e.rec.ev("canceller", "cancel", "")
 		})
+	}
+	if strings.Contains(e.sc.Opts, "timers") && !e.native {
+		mc.SetTimers(true) // deadline timers of individual calls may fire in this scenario
 	}
 	first := 0
 	if strings.Contains(e.sc.Opts, "seq0") {
